@@ -159,3 +159,46 @@ theorem historyC_series (items : List Item) (short : Bool) (env : Rd) (c c' : Cu
           simp only [this]
 
 end Proofs.SeriesTimes
+
+namespace Proofs.SeriesTimes
+open Py Model Model.Listing
+
+/-- `expected_floats` of history(): the number of value columns (1 for a generation table), not counting an integer column -/
+def expectedOf (tname : String) (t : Table) : Int :=
+  let n : Int := if tname = "generation" then 1 else t.cols.length
+  if t.cols.head? = some ['I'] then n - 1 else n
+
+/-- **One table at one result position is one `scanSel` pass**: when the table `tname` is known (`t`, with at least one column)
+    and `skip_to_results_line` finds a results line — `L` are the lines from it on — history() appends exactly what the one-pass
+    read `scanSel` returns on `L` with the stepping reader's `read_table_line` and column index, and fails exactly when it fails. -/
+theorem historyTable_eq_scan (tname : String) (ts : List Sel) (env : Rd) (c : Cur) (t : Table) (k n : Nat) (L : List Str)
+    (ht : env.tables.lookup tname = some t) (hne : t.cols ≠ [])
+    (hs : skipToResultsLineL (expectedOf tname t) c.pos.rest c.pos.no 1 = some (k, ⟨n, L⟩)) :
+    (historyTable tname ts env c).map (·.1)
+      = match scanSel (readTableLineOf env.fam t) (colIdx t.cols) ts 0 (L.headD []) L.tail with
+        | .ok (hits, _) => .ok hits
+        | .error e => .error (.py e) := by
+  have hexp : Cu.tableExpectedFloats tname t.cols env c = .ok (expectedOf tname t, c) := by
+    unfold Cu.tableExpectedFloats expectedOf
+    cases hc : t.cols with
+    | nil => exact absurd hc hne
+    | cons c0 cs =>
+      simp only [List.head?_cons, Option.some.injEq]
+      by_cases h : c0 = ['I'] <;> simp [h, pure, ReaderT.pure, StateT.pure, Except.pure]
+  unfold historyTable
+  simp only [bind, ReaderT.bind, StateT.bind, Except.bind, Cu.getTable, read, readThe, MonadReaderOf.read, ReaderT.read, ht,
+    pure, ReaderT.pure, StateT.pure, Except.pure, hexp, Cu.skipToResultsLine, get, getThe, MonadStateOf.get, StateT.get, liftM,
+    monadLift, MonadLift.monadLift, hs, set, StateT.set, Cu.readline]
+  cases L with
+  | nil =>
+    simp only [ReaderT.pure, StateT.pure, pure, Except.pure, List.headD_nil, List.tail_nil]
+    cases hsc : scanSel (readTableLineOf env.fam t) (colIdx t.cols) ts 0 [] [] with
+    | error e => rfl
+    | ok q => rfl
+  | cons l r =>
+    simp only [ReaderT.bind, ReaderT.pure, StateT.pure, StateT.set, bind, StateT.bind, Except.bind, pure, Except.pure,
+      List.headD_cons, List.tail_cons]
+    cases hsc : scanSel (readTableLineOf env.fam t) (colIdx t.cols) ts 0 l r with
+    | error e => rfl
+    | ok q => rfl
+end Proofs.SeriesTimes
